@@ -76,6 +76,7 @@ type State struct {
 	frames []*frame
 	next   Term // allocation frontier: every address existing in this state is below it
 	pcSet  map[string]bool
+	hinted map[string]bool
 	atServe map[string]Term // heaps right before the first ServeHTTP event
 }
 
@@ -120,6 +121,12 @@ func (s *State) clone() *State {
 	}
 	n.pc = append([]Term(nil), s.pc...)
 	n.pcSet = nil
+	if s.hinted != nil {
+		n.hinted = map[string]bool{}
+		for k, v := range s.hinted {
+			n.hinted[k] = v
+		}
+	}
 	n.trace = append([]string(nil), s.trace...)
 	n.events = append([]Event(nil), s.events...)
 	n.frames = append([]*frame(nil), s.frames...)
@@ -1056,6 +1063,9 @@ func (x *Exec) step(st *State, in ssa.Instruction) bool {
 	switch in := in.(type) {
 	case *ssa.DebugRef:
 		if id, ok := in.Expr.(*ast.Ident); ok && id.Name != "_" {
+			if v, isVar := in.Object().(*types.Var); !isVar || v.IsField() {
+				return true // only local variables and parameters are named in contracts
+			}
 			if _, isFn := in.X.(*ssa.Function); isFn {
 				return true
 			}
@@ -1068,6 +1078,9 @@ func (x *Exec) step(st *State, in ssa.Instruction) bool {
 				v = Val{Ref: &p, RefTy: in.X.Type()}
 			}
 			st.names[id.Name] = v
+			if len(st.frames) == 0 {
+				x.hintsAt(st, id.Name, in)
+			}
 		}
 		return true
 	case *ssa.If:
@@ -1304,4 +1317,30 @@ func (x *Exec) postEnv(st *State, results []Val) *Env {
 		}
 	}
 	return env
+}
+
+
+// hintsAt: intermediate assertions ("hint when v: E"): proved as their own
+// obligation in the state right after v is bound, then available as a fact.
+func (x *Exec) hintsAt(st *State, name string, in *ssa.DebugRef) {
+	if x.c == nil {
+		return
+	}
+	for i, h := range x.c.Hints {
+		if h.Label != name {
+			continue
+		}
+		key := fmt.Sprintf("%d@%p", i, in.Block())
+		if st.hinted == nil {
+			st.hinted = map[string]bool{}
+		}
+		if st.hinted[key] {
+			continue
+		}
+		st.hinted[key] = true
+		env := x.envFor(st, nil)
+		t := x.trBool(env, h.E)
+		x.addVC(st, "invariant", fmt.Sprintf("hint/%s#%d", name, i), h.Prop, in.Pos(), t, h.Src)
+		st.assume(t)
+	}
 }
